@@ -489,6 +489,44 @@ class Body:
         self._terms[key] = t
         return t
 
+    _NONOK_VARIANTS = ('Err', 'None', 'Break')
+
+    def ok_def(self, l, depth=0):
+        """A local assigned on several paths (e.g. the result of an inlined helper) of which exactly ONE definition is a
+        success aggregate Ok{x}/Some{x}/Continue{x} and every other one certainly is not (Err{..}/None/Break{..} aggregate, or
+        FromResidual::from_residual, which only builds failures): returns (pos_of_that_def, x). Whenever the local is known
+        to hold a success value, control came through that definition."""
+        if depth > 6:
+            return None
+        cache = self.__dict__.setdefault("_okdefs", {})
+        if l in cache:
+            return cache[l]
+        cache[l] = None
+        ds = self.defs(l)
+        if self.partial_defs(l) or not ds:
+            return None
+        if len(ds) == 1:
+            pos, kind, payload = ds[0]
+            if kind == "rv" and payload.get("k") == "use" and payload["op"].get("k") in ("move", "copy") and "p" not in payload["op"]["pl"]:
+                r = self.ok_def(payload["op"]["pl"]["l"], depth + 1)
+                cache[l] = r
+                return r
+            return None
+        good = []
+        for pos, dt in self.var_defs(l):
+            dt = deep_strip(dt)
+            if dt[0] == 'agg' and dt[2] in self._OK_VARIANTS and len(dt[3]) == 1:
+                good.append((pos, dt[3][0]))
+            elif dt[0] == 'agg' and dt[2] in self._NONOK_VARIANTS:
+                continue
+            elif dt[0] == 'call' and canon(dt[1]).endswith("FromResidual::from_residual"):
+                continue
+            else:
+                return None
+        if len(good) == 1:
+            cache[l] = good[0]
+        return cache[l]
+
     def var_defs(self, l):
         """terms of all whole-local definitions of a multiply-assigned local"""
         out = []
@@ -529,10 +567,12 @@ class Body:
         if variant in self._OK_VARIANTS and idx == 0:
             # Try::branch(x) -> Continue(payload of x)
             b = base
-            if b[0] == 'call' and strip_generics(b[1]).endswith('Try::branch'):
+            if b[0] == 'call' and canon(b[1]).endswith('Try::branch'):
                 b = b[2][0]
-            if b[0] == 'ok':
-                return ('ok', b)
+            if b[0] == 'var':
+                od = self.ok_def(b[1])
+                if od is not None:
+                    return od[1]
             return ('ok', b)
         return t
 
@@ -590,8 +630,68 @@ class Body:
             yield (bi, len(b["stmts"])), b["term"]
 
     def return_terms(self):
-        """terms assigned to _0 (whole) with their positions"""
-        return self.var_defs(0)
+        """terms assigned to _0 (whole) with their positions. A failure forwarded from a multiply-defined local (the result
+        of an inlined helper: `from_residual(branch(v)@Break)` or `v` itself) is split into one alternative per failing
+        definition of `v`, positioned AT that definition, so that the facts of the helper's own path apply."""
+        out = []
+
+        def expand(pos, t, depth):
+            d = deep_strip(t)
+            if d[0] == 'var' and depth < 4 and d[1] != 0 and d[1] > self.arg_count and not self.partial_defs(d[1]) and len(self.defs(d[1])) >= 2:
+                # phi of an inlined helper's result: one alternative per definition, positioned at the definition
+                for p2, t2 in self.var_defs(d[1]):
+                    expand(p2, t2, depth + 1)
+                return
+            alts = self._failure_alternatives(t)
+            if alts:
+                out.extend(alts)
+            else:
+                out.append((pos, t))
+        for pos, t in self.var_defs(0):
+            expand(pos, t, 0)
+        return out
+
+    def _failure_alternatives(self, t):
+        d = deep_strip(t)
+        wrap = False
+        if d[0] == 'call' and canon(d[1]).endswith("FromResidual::from_residual") and len(d[2]) == 1:
+            x = deep_strip(d[2][0])
+            # Break payload of Try::branch(v)
+            if x[0] == 'vfield' and x[2] == 'Break' and deep_strip(x[1])[0] == 'call' and canon(deep_strip(x[1])[1]).endswith("Try::branch"):
+                v = deep_strip(deep_strip(x[1])[2][0])
+                wrap = True
+            else:
+                return None
+        else:
+            return None
+        if v[0] != 'var':
+            return None
+        l = v[1]
+        # follow plain moves
+        for _ in range(4):
+            ds = self.defs(l)
+            if len(ds) == 1 and ds[0][1] == "rv" and ds[0][2].get("k") == "use" and ds[0][2]["op"].get("k") in ("move", "copy") and "p" not in ds[0][2]["op"]["pl"]:
+                l = ds[0][2]["op"]["pl"]["l"]
+            else:
+                break
+        if self.ok_def(l) is None and not all(deep_strip(dt)[0] == 'agg' for _p, dt in self.var_defs(l)):
+            return None
+        alts = []
+        for pos, dt in self.var_defs(l):
+            dt = deep_strip(dt)
+            if dt[0] == 'agg' and dt[2] in self._OK_VARIANTS:
+                continue
+            if dt[0] == 'agg' and dt[2] in ('Err',):
+                alts.append((pos, dt))
+            elif dt[0] == 'call' and canon(dt[1]).endswith("FromResidual::from_residual"):
+                sub = self._failure_alternatives(dt)
+                if sub:
+                    alts.extend(sub)
+                else:
+                    alts.append((pos, dt))
+            else:
+                return None
+        return alts
 
     # ---------------------------------------------------------------- branch facts
     def branch_facts(self):
@@ -623,6 +723,8 @@ class Program:
         self.j = j
         self.config = config or j["header"].get("config")
         self.types = j["types"]
+        from . import inline
+        self.inline_report = inline.inline_program(j, self.config)
         self.bodies = [Body(self, b) for b in j["bodies"]]
         self.by_id = {b.id: b for b in self.bodies}
         self.by_key = defaultdict(list)
@@ -669,7 +771,8 @@ class Program:
         return r[0]
 
     def closures_of(self, body):
-        return [b for b in self.bodies if b.kind == "Closure" and b.root == body.id and b.id.startswith(body.id + "::")]
+        roots = [body.id] + list(body.j.get("inlined", ()))     # closures of inlined novel helpers belong to the caller now
+        return [b for b in self.bodies if b.kind == "Closure" and b.root in roots and any(b.id.startswith(r + "::") for r in roots)]
 
     def adt_impls(self, adt_path, trait=None):
         out = []
@@ -924,8 +1027,46 @@ def _writes_between(self, v, use_pos, parts, edge):
     return False
 
 
-def _facts_at(self, pos):
+def _facts_at(self, pos, _depth=0):
     """relations that hold whenever control reaches `pos` (edge dominance + no intervening write)"""
+    out = _facts_at_direct(self, pos)
+    if _depth > 4:
+        return out
+    # value-carried facts: a dominating fact says a multiply-defined local holds a success value, and only one of its
+    # definitions builds a success value (ok_def): control came through that definition, so what held there holds here
+    # (unless written in between)
+    seen = set()
+    for rel in list(out):
+        if rel[0] != 'discr':
+            continue
+        t, v = deep_strip(rel[1]), rel[2]
+        via_branch = False
+        if t[0] == 'call' and canon(t[1]).endswith('Try::branch'):
+            t, via_branch = deep_strip(t[2][0]), True
+        if t[0] != 'var' or t[1] in seen:
+            continue
+        tys = self.local_ty(t[1]).s
+        okv = 0 if via_branch else (0 if tys.startswith("std::result::Result<") else 1 if tys.startswith("std::option::Option<") else None)
+        if okv is None or v != okv:
+            continue
+        od = self.ok_def(t[1])
+        if od is None:
+            continue
+        seen.add(t[1])
+        dpos = od[0]
+        for r2 in _facts_at(self, dpos, _depth + 1):
+            parts = set()
+            for x in r2[1:]:
+                if isinstance(x, tuple):
+                    parts |= _mutable_parts(x, self)
+            if _writes_between(self, dpos[0], pos, parts, None):
+                continue
+            if r2 not in out:
+                out.append(r2)
+    return out
+
+
+def _facts_at_direct(self, pos):
     out = []
     for f in _body_facts(self):
         u, v = f["u"], f["v"]
